@@ -19,10 +19,19 @@ def gen_call(ctx: Ctx, P, for_mean=False):
     cands = differentiable_nonleaves(P)
     k = rng.choice([1, 1, 2, 2, 3, 4])
     tensors = rng.sample(cands, min(k, len(cands)))
-    m = sum(numel(P.nodes[t].shape) for t in tensors)
     rg_leaves = [i for i in P.leaves() if P.nodes[i].rg]
+    leaf_objective = False
+    if rg_leaves and rng.random() < 0.12:
+        # an objective that is itself a parameter (e.g. a learnable log-variance added to the losses): its Jacobian rows
+        # are one-hot; legal as soon as `inputs` is given explicitly
+        tensors = tensors + [rng.choice(rg_leaves)]
+        rng.shuffle(tensors)
+        leaf_objective = True
+    m = sum(numel(P.nodes[t].shape) for t in tensors)
     reach = sorted(P.reach_leaves(tensors))
     mode = rng.random()
+    if leaf_objective and mode < 0.2:
+        mode = 0.3
     if mode < 0.2:
         inputs = None
     elif mode < 0.5:
